@@ -51,11 +51,12 @@ package remote
 //@ func net/http.NewRequestWithContext
 //@   trusted
 //@   modifies reqURL[*]
+//@   ensures result0 == nil || fresh(result0)
 //@   ensures err == nil ==> result0 != nil && reqURL[ref(result0)] == url
-//@   ensures forall r ref :: r != ref(result0) ==> reqURL[r] == old(reqURL[r])
+//@   ensures forall r ref :: (r != ref(result0) || err != nil) ==> reqURL[r] == old(reqURL[r])
 //@ func maps.Copy
 //@   trusted
-//@   modifies hdrFrom[*]
+//@   modifies hdrFrom[*], dst[*]
 //@   ensures hdrFrom[ref(dst)] == ref(src)
 //@   ensures forall r ref :: r != ref(dst) ==> hdrFrom[r] == old(hdrFrom[r])
 //@ func interface net/http.RoundTripper.RoundTrip
@@ -69,6 +70,8 @@ package remote
 //@ func redirect
 //@   props C18
 //@   requires tr != nil && mayCarry(ref(header), blobURL)
+//@   modifies hdrFrom[*], reqURL[*]
+//@   ensures forall r ref :: !fresh(r) ==> hdrFrom[r] == old(hdrFrom[r]) && reqURL[r] == old(reqURL[r])
 //@   ensures[C18] err == nil ==> mayCarry(ref(withHeader), url) && (url != blobURL ==> withHeader == nil)
 //@ func getSize
 //@   props C18
@@ -79,6 +82,8 @@ package remote
 //@ func (f *httpFetcher) refreshURL
 //@   props C18
 //@   requires f.tr != nil && mayCarry(ref(f.orgHeader), f.blobURL)
+//@   modifies f.url, f.header, hdrFrom[*], reqURL[*]
+//@   ensures forall r ref :: !fresh(r) ==> hdrFrom[r] == old(hdrFrom[r]) && reqURL[r] == old(reqURL[r])
 //@ func (f *httpFetcher) check
 //@   props C18
 //@   requires f.tr != nil && mayCarry(ref(f.orgHeader), f.blobURL)
